@@ -1,0 +1,95 @@
+//go:build verif
+
+// Verification hook (build tag `verif`): run the real HandleMsg4/HandleMsg6 on a
+// datagram around a given handler list and interface, and capture what would be
+// written to the socket instead of writing it.
+
+package server
+
+import (
+	"net"
+	"sync"
+
+	"golang.org/x/net/ipv4"
+	"golang.org/x/net/ipv6"
+
+	"github.com/coredhcp/coredhcp/handler"
+	"github.com/insomniacslk/dhcp/dhcpv4"
+	"github.com/insomniacslk/dhcp/dhcpv6"
+)
+
+// Captured4 is one reply HandleMsg4 was about to send
+type Captured4 struct {
+	Req, Resp *dhcpv4.DHCPv4
+	Peer      *net.UDPAddr
+	OOB       *ipv4.ControlMessage
+	L2        bool
+}
+
+// Captured6 is one reply HandleMsg6 was about to send
+type Captured6 struct {
+	Req, Resp dhcpv6.DHCPv6
+	Peer      *net.UDPAddr
+	OOB       *ipv6.ControlMessage
+}
+
+var verifSlots4, verifSlots6 sync.Map
+
+func verifCapture4(l *listener4, req, resp *dhcpv4.DHCPv4, peer *net.UDPAddr, woob *ipv4.ControlMessage, l2 bool) bool {
+	s, ok := verifSlots4.Load(l)
+	if !ok {
+		return false
+	}
+	out := s.(*[]Captured4)
+	*out = append(*out, Captured4{Req: req, Resp: resp, Peer: peer, OOB: woob, L2: l2})
+	return true
+}
+
+func verifCapture6(l *listener6, req, resp dhcpv6.DHCPv6, peer *net.UDPAddr, woob *ipv6.ControlMessage) bool {
+	s, ok := verifSlots6.Load(l)
+	if !ok {
+		return false
+	}
+	out := s.(*[]Captured6)
+	*out = append(*out, Captured6{Req: req, Resp: resp, Peer: peer, OOB: woob})
+	return true
+}
+
+// VerifHandle4 feeds one datagram to HandleMsg4 of a listener built around
+// handlers, bound to interface index ifIndex (0 = unbound). oobIfIndex < 0 means
+// no control message was received. The receive buffer is taken from the pool
+// exactly as Serve does.
+func VerifHandle4(handlers []handler.Handler4, ifIndex int, datagram []byte, oobIfIndex int, peer net.Addr) []Captured4 {
+	l := &listener4{handlers: handlers}
+	l.Interface.Index = ifIndex
+	var out []Captured4
+	verifSlots4.Store(l, &out)
+	defer verifSlots4.Delete(l)
+	var oob *ipv4.ControlMessage
+	if oobIfIndex >= 0 {
+		oob = &ipv4.ControlMessage{IfIndex: oobIfIndex}
+	}
+	b := *bufpool.Get().(*[]byte)
+	b = b[:MaxDatagram]
+	n := copy(b, datagram)
+	l.HandleMsg4(b[:n], oob, peer)
+	return out
+}
+
+// VerifHandle6 is the DHCPv6 counterpart of VerifHandle4
+func VerifHandle6(handlers []handler.Handler6, ifIndex int, datagram []byte, oobIfIndex int, peer *net.UDPAddr) []Captured6 {
+	l := &listener6{handlers: handlers}
+	l.Interface.Index = ifIndex
+	var out []Captured6
+	verifSlots6.Store(l, &out)
+	defer verifSlots6.Delete(l)
+	var oob *ipv6.ControlMessage
+	if oobIfIndex >= 0 {
+		oob = &ipv6.ControlMessage{IfIndex: oobIfIndex}
+	}
+	b := *bufpool.Get().(*[]byte)
+	b = b[:MaxDatagram]
+	n := copy(b, datagram)
+	l.HandleMsg6(b[:n], oob, peer)
+	return out
+}
